@@ -3,6 +3,7 @@ package main
 import (
 	"fmt"
 	"go/types"
+	"math"
 	"math/big"
 	"os"
 	"regexp"
@@ -158,7 +159,7 @@ func (env *Env) tr(x Expr) TV {
 		return TV{bigLit(bi), tyInt}
 	case *EFloat:
 		f, _ := strconv.ParseFloat(x.Val, 64)
-		return TV{f64Lit(f), tyF64}
+		return TV{e.f64Lit(f), tyF64}
 	case *EStr:
 		return TV{e.strLit(x.Val), tyString}
 	case *EBool:
@@ -178,9 +179,9 @@ func (env *Env) tr(x Expr) TV {
 		case "alloc":
 			return TV{env.heap("alloc"), tyInt}
 		case "NaN":
-			return TV{"(_ NaN 11 53)", tyF64}
+			return TV{e.f64Lit(math.NaN()), tyF64}
 		case "Inf":
-			return TV{"(_ +oo 11 53)", tyF64}
+			return TV{e.f64Lit(math.Inf(1)), tyF64}
 		}
 		// nullary spec function / constant
 		if sf := e.P.lookupSpec(x.Name, env.pkg); sf != nil && len(sf.Params) == 0 {
@@ -198,7 +199,7 @@ func (env *Env) tr(x Expr) TV {
 			return TV{not(v.T), tyBool}
 		case "-":
 			if isFloat(v.Ty) {
-				return TV{app("fp.neg", v.T), v.Ty}
+				return TV{e.fop("fp.neg", v.T), v.Ty}
 			}
 			return TV{app("-", v.T), v.Ty}
 		case "*":
@@ -419,7 +420,7 @@ func (env *Env) cmpOp(op string, a, b TV) Term {
 	switch {
 	case isFloat(a.Ty):
 		m := map[string]string{"<": "fp.lt", "<=": "fp.leq", ">": "fp.gt", ">=": "fp.geq"}
-		return app(m[op], a.T, b.T)
+		return env.e.fop(m[op], a.T, b.T)
 	case isString(a.Ty):
 		env.e.note("string order: uninterpreted strict total order (assumed byte-wise)")
 		switch op {
@@ -472,7 +473,7 @@ func (env *Env) trBin(x *EBin) TV {
 	case "+", "-", "*":
 		if isFloat(a.Ty) {
 			m := map[string]string{"+": "fp.add", "-": "fp.sub", "*": "fp.mul"}
-			return TV{app(m[x.Op], "RNE", a.T, b.T), a.Ty}
+			return TV{env.e.fop(m[x.Op], a.T, b.T), a.Ty}
 		}
 		if isString(a.Ty) && x.Op == "+" {
 			return TV{app("str_concat", a.T, b.T), a.Ty}
@@ -480,7 +481,7 @@ func (env *Env) trBin(x *EBin) TV {
 		return TV{app(x.Op, a.T, b.T), a.Ty}
 	case "/":
 		if isFloat(a.Ty) {
-			return TV{app("fp.div", "RNE", a.T, b.T), a.Ty}
+			return TV{env.e.fop("fp.div", a.T, b.T), a.Ty}
 		}
 		return TV{tdiv(a.T, b.T), a.Ty}
 	case "%":
@@ -792,14 +793,16 @@ func (env *Env) trCall(x *ECall) TV {
 			id = app("s_arr", v.T)
 		}
 		return TV{and(app(">=", id, env.alloc0), app("<", id, env.heap("alloc"))), tyBool}
-	case "allocated": // id existed at function entry
+	case "allocated": // everything the value refers to directly existed at function entry
 		argN(1)
 		v := env.tr(x.Args[0])
-		id := v.T
-		if _, ok := v.Ty.Underlying().(*types.Slice); ok {
-			id = app("s_arr", v.T)
+		var ids []Term
+		e.refIds(v.T, v.Ty, &ids, 0)
+		var cs []Term
+		for _, id := range ids {
+			cs = append(cs, app("<", id, env.alloc0))
 		}
-		return TV{app("<", id, env.alloc0), tyBool}
+		return TV{and(cs...), tyBool}
 	case "has":
 		argN(2)
 		m := env.tr(x.Args[0])
@@ -812,10 +815,10 @@ func (env *Env) trCall(x *ECall) TV {
 		return TV{app("select", app("select", env.heap(has), m.T), k.T), tyBool}
 	case "isnan":
 		argN(1)
-		return TV{app("fp.isNaN", env.tr(x.Args[0]).T), tyBool}
+		return TV{e.fop("fp.isNaN", env.tr(x.Args[0]).T), tyBool}
 	case "feq":
 		argN(2)
-		return TV{app("fp.eq", env.tr(x.Args[0]).T, env.tr(x.Args[1]).T), tyBool}
+		return TV{e.fop("fp.eq", env.tr(x.Args[0]).T, env.tr(x.Args[1]).T), tyBool}
 	case "f64":
 		argN(1)
 		e.decl("fn:i2f", "(declare-fun i2f (Int) F64)")
